@@ -61,6 +61,15 @@ def sqrtTrunc (n : Int) : Int := (Nat.sqrt n.toNat : Int)
 /-- `t.Truncate(time.Second)` on a time given in nanoseconds: rounds down to a whole second -/
 def truncSec (ns : Int) : Int := ns - ns % 1000000000
 
+/-- what a translated function wrote to the connection (for functions translated with an output log) -/
+inductive Out where
+  | i32 (v : Int32)
+  | bytes (b : List UInt8)
+deriving Repr, DecidableEq
+
+/-- `ms.ptr(off, n)` for a request inside the file: the file's bytes (what `MapFile.ptr_correct` proves of the real function) -/
+def fileSlice (file : List UInt8) (off n : Int) : List UInt8 := (file.drop off.toNat).take n.toNat
+
 /-- hand model of the read loop at the end of `mapStruct.ptr` (`for readSize > 0 { n, err :=
 ms.f.Read(ms.window[readOffset:readOffset+readSize]) … }`): the file is read sequentially from the
 descriptor's offset; reaching the end of the file before `readSize` bytes arrived is an error
